@@ -52,12 +52,15 @@ def handle (ts : List String) : Option String :=
     else some s!"{F32.bits (F32.mul12 x)} {F32.trunc x}"
   | ["f32init", n] => do
     let n ← n.toNat?
-    if 14336000 ≤ n then some "unmodelled" else some s!"{F32.bits F32.f4096}"
+    some s!"{F32.bits (F32.init n)}"
+  | ["f32member", n, ls] => do
+    let n ← n.toNat?
+    let ls ← ls.toNat?
+    some (if onSchedule ls 400 (F32.init n) then "on" else "off")
   | ["f32sched", n, ls] => do
     let n ← n.toNat?
     let ls ← ls.toNat?
-    if 14336000 ≤ n then some "unmodelled"
-    else some (if onSchedule ls 400 F32.f4096 then "on" else "off")
+    some (if onSchedule ls 400 (F32.init n) then "on" else "off")
   | "finroot" :: _ => some "within"     -- theorem C05.opt_within_16k under obligation root_budgets_fit
   | "finrootx" :: _ => some "within"    -- the same for the root directory a whole-archive Extract writes
   | _ => none
